@@ -5,6 +5,7 @@ CONSTANTS
   StatBs = {3}
   Seeds = {3, 4}
   Reps = 16384
+  CbkVariants = {1}
 INIT Init
 NEXT Next
 INVARIANT Emit
